@@ -20,5 +20,6 @@ package sqltypes
 //@   requires go_text_is_not_pg: forall d int :: {durstr(d)} !rematch(pgIntervalRegexp, durstr(d))
 //@   ensures roundtrip: forall d int :: {durstr(d)} typeis(src, "string") && asstring(src) == durstr(d) ==> err == nil && deref(i) == d
 //@   ensures nil_is_zero: !typeis(src, "string") && !typeis(src, "int64") && !typeis(src, "*int64") && !typeis(src, "time.Duration") && !typeis(src, "*time.Duration") && err == nil ==> deref(i) == 0
+//@   ensures garbage_rejected: typeis(src, "string") && !rematch(pgIntervalRegexp, asstring(src)) && !durparses(asstring(src)) ==> err != nil
 //@   ensures failed_scan_keeps_value: typeis(src, "string") && err != nil ==> deref(i) == old(deref(i))
 //@   modifies B:sqltypes.Interval:
